@@ -183,7 +183,10 @@ def table(out=None):
             st["own"] += 1
         elif caught_by:
             st["other"].append("%s by %s" % (sid, "+".join(caught_by)))
-        rows.append("| %s | %s | %s | %s |" % (sid, meta["property"], "; ".join(cells) or "-", " ".join(meta.get("breaks", "").split())[:160].replace("|", "/")))
+        what = " ".join(meta.get("breaks", "").split())[:160].replace("|", "/")
+        if meta.get("not_detected_because") and not caught_by:
+            what = "NOT DETECTED (" + " ".join(meta["not_detected_because"].split()).replace("|", "/") + ") " + what
+        rows.append("| %s | %s | %s | %s |" % (sid, meta["property"], "; ".join(cells) or "-", what))
     lines = ["| seeded change | property | checks (tier: verdict) | what it breaks |", "|---|---|---|---|"] + rows
     summ = ["| property | seeded changes | caught | caught by the property's own check | caught only by another check |", "|---|---|---|---|---|"]
     for p in sorted(per):
